@@ -61,6 +61,7 @@ pub fn guard_text(g: &Value) -> String {
         "neq" => format!("{l} != {r}"),
         "lt" => format!("{l} < {r}"),
         "nz" => format!("10 / {l} >= 0"),
+        "ov" => format!("9223372036854775807 + {l} > 0"),
         "false" => "false".to_string(),
         o => panic!("guard kind {o}"),
     }
@@ -469,7 +470,11 @@ fn replay_outcomes(idx: usize, case: &Value, n: usize) -> Value {
                     break;
                 }
             };
-            let mut a = match build_authorizer(&prog["authz"], &tok, big_limits()) {
+            let mut limits = big_limits();
+            if case["small_facts"].as_bool().unwrap_or(false) {
+                limits.max_facts = 2;
+            }
+            let mut a = match build_authorizer(&prog["authz"], &tok, limits) {
                 Ok(a) => a,
                 Err(e) => {
                     problems.push(format!("building the authorizer failed: {e}"));
@@ -485,7 +490,19 @@ fn replay_outcomes(idx: usize, case: &Value, n: usize) -> Value {
             for r in [r, r2] {
                 let got = auth_result(&r);
                 if let Some(e) = got.get("error") {
-                    observed.insert("error".to_string());
+                    let es = e.as_str().unwrap_or("");
+                    let kind = if es.contains("DivideByZero") {
+                        "Ed"
+                    } else if es.contains("Overflow") {
+                        "Eo"
+                    } else if es.contains("InvalidType") {
+                        "Et"
+                    } else if es.contains("RunLimit") {
+                        "limit"
+                    } else {
+                        "other-error"
+                    };
+                    observed.insert(kind.to_string());
                     detail.insert(format!("error {}", e));
                 } else {
                     observed.insert("result".to_string());
